@@ -54,7 +54,7 @@ Dispatch ==
     /\ pc = "dispatch"
     /\ br' = Branch(bytes)
     /\ pos' = CASE Branch(bytes) = "u16" -> 2
-                [] Branch(bytes) = "u8"  -> IF "h37" \in Dev THEN 0 ELSE 3
+                [] Branch(bytes) = "u8"  -> IF "utf8.bom.kept" \in Dev THEN 0 ELSE 3
                 [] OTHER -> 0
     /\ pc' = "loop"
     /\ UNCHANGED <<s, mode, bytes, acc, res>>
@@ -120,10 +120,11 @@ Done == pc = "done"
 \* what the declarative layer expects the decoder to return for the finished case
 Expected == IF mode \in {"rt", "u8"} THEN Def(s) ELSE Dec(bytes)
 
-Sig == CASE mode = "rt"  -> SigRT(s, Dev)
-         [] mode = "u8"  -> SigDec(bytes, Dev)
-         [] mode = "raw" -> SigDec(bytes, Dev)
-         [] OTHER -> "none"
+\* the confirmed deviations this case runs into
+Sigs == CASE mode = "rt"  -> SigsRT(s, Dev)
+          [] mode = "u8"  -> SigsDec(bytes, Dev)
+          [] mode = "raw" -> SigsDec(bytes, Dev)
+          [] OTHER -> {}
 
 TypeOK == /\ IsString(s) /\ IsBytes(bytes)
           /\ res.def => IsString(res.s)
@@ -142,9 +143,11 @@ AsciiStays == (Done /\ mode = "rt") => EncOk(s, bytes)
 FunctionForm == Done => res = ImplDec(bytes, Dev)
 \* TextRT / Utf8Too / byte level: wherever the declarative layer defines the result the impl-shaped
 \* layer returns it, except in the classified deviation classes -- and there it really deviates.
-Refines == Done => (Expected.def => ((res = Expected) <=> (Sig = "none")))
+Refines == Done => (Expected.def => ((res = Expected) <=> (Sigs = {})))
 \* with every deviation repaired nothing is classified
-Repaired == (Dev = {}) => (Done => Sig = "none")
+Repaired == (Dev = {}) => (Done => Sigs = {})
+\* each set of deviations predicts a different result, so an explanation is unique
+Distinct == Done => \A a1, a2 \in Alternatives(bytes, Sigs) : a1.impl = a2.impl => a1 = a2
 
 EmitInv ==
     (Emit /\ Done) =>
@@ -154,5 +157,6 @@ EmitInv ==
                                    impl |-> res,
                                    br |-> br,
                                    cls |-> [i \in 1..Len(s) |-> ClassOf(s[i])],
-                                   sig |-> Sig])>>)
+                                   alts |-> SetToSeq({[sigs |-> SetToSeq(a.sigs), impl |-> a.impl] :
+                                                        a \in Alternatives(bytes, Sigs)})])>>)
 =============================================================================
